@@ -21,45 +21,57 @@ def named_local(b, name):
     return ls
 
 
+# ways to change a counter in the to_dereference map
+COUNTER_MUT = ['re:HashMap.*::(remove|insert|get_mut)$', 're:hash_map::.*Entry.*::(insert|or_insert|or_insert_with|or_default|and_modify|insert_entry|remove|remove_entry|get_mut|into_mut)$']
+
+
 def run(ctx):
     F = ctx.F
     pc = ctx.body('db::DbInner::process_commits')
     if pc:
-        # the deferral flag: a bool local assigned only constants whose branch leads (on its set edge) to defer_commit
+        # the deferral decision: the bool that sends process_commits to defer_commit. Either a flag local of process_commits
+        # assigned constants (decision sites = its `= true` assignments), or the result of a predicate function (decision
+        # sites = that function's `return true` assignments).
         dcs = pc.call_sites('db::DbInner::defer_commit')
         dl = []
-        for l, ty in enumerate(pc.locals):
-            if ty != 'bool':
-                continue
-            ds = pc.defs().get(l, [])
-            if len(ds) < 2 or not all(d[2] == 'assign' and d[3]['r']['k'] == 'use' and 'i' in d[3]['r']['a'][0] for d in ds):
-                continue
-            if not any(d[3]['r']['a'][0]['i'] == 1 for d in ds):
-                continue
-            for bi in pc.normal_blocks():
-                t = pc.term(bi)
-                if t['k'] == 'switch' and t['vals'] == [0] and op_local(t['a']) is not None and l in backward_slice(pc, [op_place(t['a'])], through_calls=False).locals:
-                    if dcs and all(d in pc.reachable_from([t['ts'][1]], removed={bi}) for d in dcs) and not any(d in pc.reachable_from([t['ts'][0]], removed={bi}) for d in dcs):
-                        dl.append(l)
-        dl = sorted(set(dl))
-        ctx.ob('1a defer-flag-anchor', 'anchor', pc.path, 'process_commits keeps the deferral decision in one boolean flag whose set edge leads to defer_commit', len(dl) == 1, str(dl))
+        for bi in pc.normal_blocks():
+            t = pc.term(bi)
+            if t['k'] == 'switch' and t['vals'] == [0] and len(t['ts']) == 2 and op_local(t['a']) is not None and pc.locals[op_local(t['a'])] == 'bool':
+                if dcs and all(d in pc.reachable_from([t['ts'][1]], removed={bi}) for d in dcs) and not any(d in pc.reachable_from([t['ts'][0]], removed={bi}) for d in dcs):
+                    dl.append((bi, lib.root_local(pc, t['a'])))
+        # the innermost such branch (an enclosing `if check_for_deferral` also has defer_commit only on its true side)
+        dl = [(bi, r) for bi, r in dl if not any(b2 != bi and b2 in pc.reachable_from([pc.term(bi)['ts'][1]], removed={bi}) for b2, _ in dl)]
+        dl = sorted(set(r for _, r in dl if r is not None))
+        ctx.ob('1a defer-flag-anchor', 'anchor', pc.path, 'process_commits takes the deferral decision from one boolean whose true edge leads to defer_commit', len(dl) == 1, str(dl))
+        lock_sets = []
+        DB = pc
         if len(dl) == 1:
             D = dl[0]
-            sets = [(bi, s) for bi in pc.normal_blocks() for s in pc.blocks[bi]['s'] if s['k'] == 'assign' and s['p'] == [D] and s['r']['k'] == 'use' and s['r']['a'][0].get('i') == 1]
+            ds = pc.defs().get(D, [])
+            sets = []
+            if ds and all(d[2] == 'assign' and d[3]['r']['k'] == 'use' and 'i' in d[3]['r']['a'][0] for d in ds):
+                sets = [(d[0], d[3]) for d in ds if d[3]['r']['a'][0]['i'] == 1]
+            elif len(ds) == 1 and ds[0][2] == 'call':
+                hb = None
+                for n in call_names(ds[0][3]):
+                    if F.body(n) is not None:
+                        hb = F.body(n)
+                if hb is not None:
+                    DB = hb
+                    sets = [(bi, st) for bi in hb.normal_blocks() for st in hb.blocks[bi]['s'] if st['k'] == 'assign' and st['p'] == [0] and st['r']['k'] == 'use' and st['r']['a'][0].get('i') == 1]
             by_lock = by_queue = 0
-            lock_sets = []
-            for bi, s in sets:
-                calls, fields, binops = lib.guard_influences(pc, bi)
-                if any(re.search(r'RwLock.*::is_locked$', c) for c in lib.deep_calls(F, calls)):
+            for bi, st in sets:
+                calls, fields, binops = lib.guard_influences(DB, bi)
+                if any(re.search(r'RwLock.*::is_locked$', c) for c in lib.shallow_calls(F, calls, owner=DB.path)):
                     by_lock += 1
                     lock_sets.append(bi)
                 if '.IndexedChangeSet.used_trees' in fields and '.CommitQueue.commits' in fields:
                     by_queue += 1
-            ctx.ob('1b deferred-when-reader-locked', 'K3-guard', pc.path, 'defer is set on a path that depends on RwLock::is_locked of the registered reader of the tree', by_lock >= 1, 'assignments %d by-lock %d' % (len(sets), by_lock))
-            ctx.ob('1c deferred-when-queued-commit-uses-tree', 'K3-guard', pc.path, 'defer is set on a path that depends on the used_trees of commits still queued', by_queue >= 1, 'by-queue %d' % by_queue)
+            ctx.ob('1b deferred-when-reader-locked', 'K3-guard', DB.path, 'the deferral decision is true on a path that depends on RwLock::is_locked of the registered reader of the tree', by_lock >= 1, 'decision sites %d by-lock %d' % (len(sets), by_lock))
+            ctx.ob('1c deferred-when-queued-commit-uses-tree', 'K3-guard', DB.path, 'the deferral decision is true on a path that depends on the used_trees of commits still queued', by_queue >= 1, 'by-queue %d' % by_queue)
             # switch on D
             sw = [bi for bi in pc.normal_blocks() if pc.term(bi)['k'] == 'switch' and op_local(pc.term(bi)['a']) is not None and
-                  D in backward_slice(pc, [op_place(pc.term(bi)['a'])], through_calls=False).locals and pc.term(bi)['vals'] == [0]]
+                  lib.root_local(pc, pc.term(bi)['a']) == D and pc.term(bi)['vals'] == [0]]
             ctx.ob('1d defer-branch-anchor', 'anchor', pc.path, 'one branch on `defer`', len(sw) == 1, str(sw))
             if len(sw) == 1:
                 zero_t, nz_t = pc.term(sw[0])['ts']
@@ -72,16 +84,46 @@ def run(ctx):
                 ctx.ob('1f deferred-commit-is-requeued', 'K1-must-pass', pc.path, 'on the defer==true edge every path passes defer_commit (the commit is not dropped)',
                        bool(dc) and pc.find_path([nz_t], pc.return_blocks(), removed=set(dc) | core.error_exit_blocks(pc) | {sw[0]}) is None, '')
                 # counters
-                td = [bi for bi, t in pc.calls() if bi in pc.normal_blocks() and call_matches(t, ['re:HashMap.*::(remove|insert)$']) and '.Trees.to_dereference' in lib.receiver_fields(pc, t, 0)]
+                td = [bi for bi, t in pc.calls() if bi in pc.normal_blocks() and call_matches(t, COUNTER_MUT) and '.Trees.to_dereference' in lib.receiver_fields(pc, t, 0)]
                 ctx.ob('4a counters-decremented-only-when-planned', 'K3-guard', pc.path, 'to_dereference is decremented only on the not-deferred path (a deferred commit keeps its pending count)',
-                       len(td) == 2 and not any(x in r_nz for x in td), 'sites %s' % td)
+                       len(td) >= 1 and not any(x in r_nz for x in td), 'sites %s' % td)
         # the deferral check is made for every DereferenceChildren of the commit: in a loop over node_changes
         lk = lock_sets if len(dl) == 1 else []
-        loops = lib.for_loops_over(pc, '.IndexedChangeSet.node_changes')
+        loops = lib.for_loops_over(DB, '.IndexedChangeSet.node_changes')
         def in_loop(x):
-            return any(x in pc.reachable_from([lp['some']], removed={lp['sw']}) and x not in pc.reachable_from([lp['none']], removed={lp['sw']}) for lp in loops)
-        ctx.ob('1g lock-test-in-loop', 'K2-loop-order', pc.path, 'the is_locked-dependent deferral decision sits inside the loop over the node changes of the commit (every DereferenceChildren is examined)',
+            return any(x in DB.reachable_from([lp['some']], removed={lp['sw']}) and x not in DB.reachable_from([lp['none']], removed={lp['sw']}) for lp in loops)
+        ctx.ob('1g lock-test-in-loop', 'K2-loop-order', DB.path, 'the is_locked-dependent deferral decision sits inside the loop over the node changes of the commit (every DereferenceChildren is examined)',
                len(lk) >= 1 and any(in_loop(x) for x in lk), 'decisions %s loops %s' % (lk, [lp['head'] for lp in loops]))
+    # the walk synchronises with clients on the reader registered under hash_key(user key): get_tree hashes its argument, so it
+    # must be given the user key (field 0 of DereferenceChildren); the pre-hashed key (field 1) is what the deferral check,
+    # the used-tree marks and the counters use
+    wpl = ctx.body('db::IndexedChangeSet::write_plan')
+    if wpl:
+        gts = lib.fam_sites(F, wpl.path, ['db::DbInner::get_tree'])
+        ctx.ob('2w0 walk-registry-lookup', 'anchor', wpl.path, 'the dereference walk looks up the tree reader (get_tree)', len(gts) >= 1, str([(fb.path, s2) for fb, s2 in gts]))
+        for fb, s2 in gts:
+            a = fb.term(s2)['a']
+            fl = set()
+            if len(a) > 3 and op_place(a[3]):
+                sl = backward_slice(fb, [op_place(a[3])])
+                fl = set(sl.fields)
+                # a helper receives the fields of the change as parameters: follow them to the caller's arguments
+                if fb is not wpl and sl.params:
+                    for cb in [F.body(c) for c in F.callers(fb.path) if F.body(c) is not None]:
+                        for cs in cb.call_sites(fb.path):
+                            for pi in sl.params:
+                                if pi - 1 < len(cb.term(cs)['a']) and op_place(cb.term(cs)['a'][pi - 1]) is not None:
+                                    fl |= backward_slice(cb, [op_place(cb.term(cs)['a'][pi - 1])]).fields
+            ctx.ob('2w walk-locks-the-registered-reader', 'K4-provenance', fb.path,
+                   'the key handed to get_tree by the dereference walk is the user key of the DereferenceChildren change (get_tree hashes it to the registry key clients lock), not the already hashed key',
+                   '.NodeChange.0' in fl and '.NodeChange.1' not in fl, 'key argument derives from %s' % sorted(f for f in fl if 'NodeChange' in f), fb.loc(s2))
+    if pc:
+        rg = [bi for bi, t in pc.calls() if call_matches(t, ['re:HashMap.*::get$']) and '.Trees.readers' in lib.receiver_fields(pc, t, 0)]
+        for s2 in rg:
+            a = pc.term(s2)['a']
+            fl = backward_slice(pc, [op_place(a[1])]).fields if len(a) > 1 and op_place(a[1]) else set()
+            ctx.ob('2w2 deferral-check-uses-hashed-key', 'K4-provenance', pc.path, 'the deferral check looks the reader up under the hashed key of the change (field 1)',
+                   '.NodeChange.1' in fl and '.NodeChange.0' not in fl, 'derives from %s' % sorted(f for f in fl if 'NodeChange' in f), pc.loc(s2))
     cc = ctx.body('db::DbInner::commit_changes')
     if cc:
         ct = cc.call_sites('column::HashColumn::claim_tree_values')
@@ -94,9 +136,9 @@ def run(ctx):
                           sources=ct)
         for s2 in um:
             calls, fields, binops = lib.guard_influences(cc, s2)
-            ctx.ob('1h2 marking-decided-by-reader-lock', 'K3-guard', cc.path, 'a tree is marked as used depending on RwLock::is_locked of its registered reader', any(re.search(r'RwLock.*::is_locked$', c) for c in lib.deep_calls(F, calls)), '')
-        inc = [bi for bi, t in cc.calls() if bi in cc.normal_blocks() and call_matches(t, ['re:HashMap.*::insert$']) and '.Trees.to_dereference' in lib.receiver_fields(cc, t, 0)]
-        ctx.ob('4b one-increment-per-DereferenceTree', 'anchor', cc.path, 'commit_changes increments to_dereference in one place', len(inc) == 1, str(inc))
+            ctx.ob('1h2 marking-decided-by-reader-lock', 'K3-guard', cc.path, 'a tree is marked as used depending on RwLock::is_locked of its registered reader', any(re.search(r'RwLock.*::is_locked$', c) for c in lib.shallow_calls(F, calls, owner=cc.path)), '')
+        inc = [bi for bi, t in cc.calls() if bi in cc.normal_blocks() and call_matches(t, COUNTER_MUT) and '.Trees.to_dereference' in lib.receiver_fields(cc, t, 0)]
+        ctx.ob('4b one-increment-per-DereferenceTree', 'anchor', cc.path, 'commit_changes increments to_dereference', len(inc) >= 1, str(inc))
         for s in inc:
             lib.held_at(ctx, '4c increment-under-trees-write-lock', cc, s, '.DbInner.trees', 'the counter is changed with the trees write lock held', mode='write')
         cf = [bi for bi in cc.normal_blocks() for s in cc.blocks[bi]['s'] if s['k'] == 'assign' and '.CommitChangeSet.check_for_deferral' in s['p'][1:]]
@@ -104,17 +146,20 @@ def run(ctx):
     # 2. the walk holds the tree write lock
     wpl = ctx.body('db::IndexedChangeSet::write_plan')
     if wpl:
-        for s in wpl.call_sites('db::IndexedChangeSet::write_dereference_children_plan'):
-            live = lib.guards_live_at(wpl, s)
+        walk = lib.fam_sites(F, wpl.path, ['db::IndexedChangeSet::write_dereference_children_plan'])
+        walk = [(fb, s) for fb, s in walk if fb.path != 'db::IndexedChangeSet::write_dereference_children_plan']      # not the recursion
+        ctx.ob('2a0 walk-site', 'anchor', wpl.path, 'write_plan (or a helper of it) starts the dereference walk', len(walk) >= 1, str([(fb.path, s) for fb, s in walk]))
+        for fb, s in walk:
+            live = lib.guards_live_at(fb, s)
             ok = any('RwLockWriteGuard' in ty and 'TreeReader' in ty for l, ty, cls in live)
-            ctx.ob('2a walk-under-tree-write-lock', 'K5-held-at', wpl.path, 'the dereference walk runs with the write lock of the tree reader held (excludes every client read guard)', ok, '')
-        gt = wpl.call_sites('db::DbInner::get_tree')
-        ctx.ob('2b lock-from-registry', 'K4-provenance', wpl.path, 'the lock taken by the walk comes from DbInner::get_tree (the registry clients use)', len(gt) == 1, '')
+            ctx.ob('2a walk-under-tree-write-lock', 'K5-held-at', fb.path, 'the dereference walk runs with the write lock of the tree reader held (excludes every client read guard)', ok, '')
+        gt = lib.fam_sites(F, wpl.path, ['db::DbInner::get_tree'])
+        ctx.ob('2b lock-from-registry', 'K4-provenance', wpl.path, 'the lock taken by the walk comes from DbInner::get_tree (the registry clients use)', len(gt) >= 1, '')
     # 3. deferral
     shared.handover_order(ctx, '3')
     dc = ctx.body('db::DbInner::defer_commit')
     if dc:
-        sites = dc.call_sites(shared.COPY_IDX, shared.COPY_BT, shared.CLEAN_IDX, shared.CLEAN_BT)
+        sites = lib.sites_reaching(dc, [shared.COPY_IDX, shared.COPY_BT, shared.CLEAN_IDX, shared.CLEAN_BT])
         lib.same_guard_at(ctx, '3m one-overlay-guard-over-retag', dc, sites, '.DbInner.commit_overlay', 'defer_commit re-tags and cleans under one commit_overlay write guard', mode='write')
         push = shared.queue_push_sites(dc)
         drops = [bi for bi in dc.normal_blocks() if dc.term(bi)['k'] == 'drop' and dc.term(bi)['p'] == [2]]
